@@ -47,6 +47,8 @@ type reqRec struct {
 
 type stubServer struct {
 	mu      sync.Mutex
+	maxReqs int  // beyond this many requests the server stalls and flags a request storm (default 3000)
+	storm   bool
 	log     []reqRec
 	handler func(n int, path string, rawQuery string, req *http.Request) srvResp
 }
@@ -64,9 +66,22 @@ func (s *stubServer) RoundTrip(req *http.Request) (*http.Response, error) {
 	n := len(s.log)
 	rec := reqRec{N: n, URL: req.URL.String(), Range: req.Header.Get("Range")}
 	s.log = append(s.log, rec)
+	max := s.maxReqs
+	if max == 0 {
+		max = 3000
+	}
+	storm := n >= max
+	if storm {
+		s.storm = true
+	}
 	s.mu.Unlock()
 	if err := req.Context().Err(); err != nil {
 		return nil, err
+	}
+	if storm {
+		// stop feeding a client that keeps requesting: the response never arrives
+		resp := &http.Response{StatusCode: 200, Header: http.Header{}, Request: req, Body: &stallBody{ctx: req.Context()}}
+		return resp, nil
 	}
 	r := s.handler(n, req.URL.Path, req.URL.RawQuery, req)
 	if r.Err {
@@ -307,6 +322,7 @@ type cliObs struct {
 	Panics     []string
 	Leaked     bool
 	CallbackAfterEnd int
+	Storm      bool // the client issued more requests than the scripted server allows (request loop without pacing)
 	Reqs       []reqRec
 	Elapsed    time.Duration
 }
@@ -466,6 +482,9 @@ func runClientPlain(t *testing.T, uri string, srv *stubServer, opts cliOpts) (ob
 		default:
 		}
 		obs.Reqs = srv.requests()
+		srv.mu.Lock()
+		obs.Storm = srv.storm
+		srv.mu.Unlock()
 	})
 	return obs
 }
